@@ -26,6 +26,7 @@ def cfg : Cfg :=
     privatePat := Re.compileOne Gen.C13.privateReB
     pssPat := Re.compileOne Gen.C13.pssReB
     swapPat := Re.compileOne Gen.C13.swapReB
+    pctByMembership := Gen.C13.pctValidation == "memtype not in list(pfullmem._fields) -> ValueError"
     rollupWrapped := ((Gen.C13.methodDecorators.lookup "_parse_smaps_rollup").getD []).contains "wrap_exceptions" }
 
 /-- where `memory_percent`'s total comes from, as extracted from the current source -/
